@@ -5,7 +5,7 @@
     golang/geo, tied to the Go code by the correspondence on every run); [s2_minInt]/[s2_maxInt]
     are translated from /repo on every run. *)
 From Coq Require Import ZArith List Bool.
-From Geo Require Import Base.GoPrim Gen.C06Util Model.Shapes Model.Index
+From Geo Require Import Base.GoPrim Gen.CellIDCov Model.Shapes Model.Index
   Proofs.C06_Slices Proofs.C06_Prefix Proofs.C06_Shapes Proofs.C06_Polygons Proofs.C06_Index.
 Import ListNotations.
 Local Open Scope Z_scope.
